@@ -109,7 +109,14 @@ func runC01(c *Ctx) {
 		budget = 40000
 	}
 	count := 0
+	nRFC := 0
 	one := func(x *xcase) {
+		if x.api == "readfromc" {
+			// the concurrency argument itself, or one of the values documented to mean "the client's maximum"
+			x.rfc = nRFC % 4
+			nRFC++
+			c.Stat(fmt.Sprintf("readfromc_argument_kind_%d", x.rfc))
+		}
 		r, n := emitX(c, x)
 		if r == nil {
 			return
